@@ -39,6 +39,14 @@ _LAMBDA_OBJ = lambda: 0  # noqa: E731
 
 def realcall(a, cfg=None):
     """the concrete call an argument code stands for: (args, kwds)"""
+    if isinstance(a, (tuple, list)) and a and a[0] == 'fk':
+        # a float passed BY KEYWORD (the same binding as ('f', j)); the *args stub has no keywords
+        x = FLOATS[a[1] % len(FLOATS)]
+        if cfg is not None and cfg.get('stub') == 'var':
+            return (x,), {}
+        if cfg is not None and cfg.get('stub') == 'req2':
+            return (), {'y': 0, 'x': x}
+        return (), {'x': x}
     args, kwds = _realcall(a)
     if cfg is not None and cfg.get('stub') == 'req2' and len(args) == 1 and not kwds:
         return (args[0], 0), {}          # def stub(x, y): every call passes both
@@ -62,10 +70,15 @@ def _realcall(a):
             return ((FLOATS[a[1] % len(FLOATS)], 5),), {}
         if kind == 's':
             return (str(a[1]),), {}
+        if kind == 'sc':     # strings that differ only in letter case: distinct arguments, distinct keys
+            return (CASED[a[1] % len(CASED)],), {}
         if kind == 't':      # equal values, different types, different ways of writing the call
             return [((1, 1.0), {}), ((), {'y': 1, 'x': 1.0}), ((True, 1.0), {}), ((1.0,), {'y': True}),
                     ((1, 1), {}), ((), {'y': 1.0, 'x': 1.0})][a[1] % 6]
     return (a,), {}
+
+
+CASED = ['ab', 'Ab', 'AB', 'aB']
 
 
 def tcode(v):
@@ -86,7 +99,9 @@ def G(x, y, tol=None, none_arg=None, typed=False, deep=False):
     if callable(x):
         return 780
     if isinstance(x, str):
-        return 900 + int(x)
+        if x.isdigit():
+            return 900 + int(x)
+        return 9100 + CASED.index(x)
     if y != 0 or isinstance(y, float):
         if typed:
             return 500 + tcode(x) * 10 + tcode(y)
@@ -571,6 +586,14 @@ FIELDS = {
     'C20': ('out', 'mem', 'arch', 'swp', 'stats', 'queue', 'refcount', 'use_count'),
     'ALL': ('out', 'mem', 'arch', 'swp', 'stats', 'queue', 'refcount', 'use_count'),
 }
+# the operations that manage where results are stored must leave memory / archive / parked archive as the
+# model says: what a property observes on later calls (was it evaluated? is it retrievable?) depends on it
+_STORE = ('mem', 'arch', 'swp')
+MANAGEMENT_FIELDS = {
+    'C02': {'archived': _STORE, 'setarch': _STORE, 'load': _STORE, 'dump': _STORE, 'clear': _STORE},
+    'C01': {'archived': _STORE, 'setarch': _STORE, 'load': _STORE, 'dump': _STORE},
+    'C05': {'archived': _STORE, 'setarch': _STORE, 'load': _STORE},
+}
 # ... restricted to the operations the property quantifies over (None = every operation)
 STEP_FILTER = {
     'C16': lambda r: r['op'][0] == 'call' and (r['out'][0] == 'raise' or r['extra'].get('kr', ('ok',))[0] != 'ok'),
@@ -626,7 +649,7 @@ def compare(cfg, recs, mlines, eff, prop='ALL'):
                     return (ms['uc'], po['uc'])
                 return None
             raise ValueError(fld)
-        for fld in fields:
+        for fld in fields + MANAGEMENT_FIELDS.get(prop, {}).get(r['op'][0], ()):
             d = differs(fld)
             if d is not None:
                 return {'step': i, 'field': fld, 'model': d[0], 'impl': d[1]}
